@@ -298,7 +298,7 @@ inline Plan gen_c13_wire(u64 seed, const std::string& tier)
     Plan p;
     p.set("property", "C13");
     p.set("engine", "wire");
-    const auto& ds = drivers();
+    const auto& ds = consumer_drivers();
     const Driver& d = ds[wl.below(ds.size())];
     const SchemaShape& sh = *d.shape;
     p.set("build", d.checked ? "checked" : "unchecked");
